@@ -13,6 +13,9 @@ LEAN_MODULE = "CrCube.Props.C01_Numeric"
 THEOREMS = [
     "CrCube.C01.unavailable_decodes_nan",
     "CrCube.C01.number_decodes_itself",
+    "CrCube.C01.null_decodes_nan",
+    "CrCube.C01.decode_nan_iff",
+    "CrCube.C01.null_surfaces_as_nan_2d",
     "CrCube.C01.flat_values_entrywise",
     "CrCube.C01.numeric_plane_is_counts_plane",
     "CrCube.C01.numeric_reports_payload_2d",
@@ -33,7 +36,7 @@ THEOREMS = [
 RULE = ("numeric measures: random designs of 0-3 apparent dimensions over cat/cat_date/datetime/text/binned/mr/ca "
         "(missing categories anywhere) x respondent-level surveys with a dyadic numeric value or missing per respondent "
         "x random subsets of {mean,sum,stddev,median} x valid-count presence {none,u,w,uw} x count measure present or not "
-        "x {'?': code} holes at random payload positions; non-trivial = some reported numeric output has >= 2 distinct "
+        "x {'?': code} holes and JSON-null holes at random payload positions, dict and JSON-text responses; non-trivial = some reported numeric output has >= 2 distinct "
         "finite values; distinct = (kinds, valid-count mode, measures, values)")
 ASSUMPTIONS = ["numeric measures are laid out row-major over the raw group cells (as `count` is); valid counts count the "
                "respondents of the raw cell that have a value (Spec.validCountsScalar)"]
